@@ -70,11 +70,19 @@ structure Ref where
   prev : Obs := emptyObs
 deriving Repr
 
+/-- every value of the view reads back from its JSON text (`Model.lossyVal`: the value indices of the harness' table
+that are NaN / ±inf / hold one / are nested beyond the parser's recursion limit) -/
+def snapOk (v : List (Nat × Nat)) : Bool := v.all fun kv => !lossyVal kv.2
+
+/-- what the harness' reader shows of the complete file of a snapshot: its content, or — when a value of it does not
+read back — a file that does not parse as a whole -/
+def fileOf (v : List (Nat × Nat)) : FileObs := if snapOk v then .content v else .bad
+
 /-- every checkpoint taken so far: while listed, its file holds exactly its snapshot; once retired
 by retention, its directory is gone (`restore_reproduces`, `crash_preserves_earlier` at API level) -/
 def filesIntact (file : Bool) (taken : List (String × List (Nat × Nat))) (o : Obs) : Bool :=
   !file || taken.all fun (i, v) =>
-    if o.metas.any (·.1 == i) then lookupS o.files i == some (.content v)
+    if o.metas.any (·.1 == i) then lookupS o.files i == some (fileOf v)
     else lookupS o.files i == none
 
 def retainObs (maxCk : Nat) (ms : List (String × Nat)) : List (String × Nat) :=
@@ -86,7 +94,8 @@ def crashOk (full : List (Nat × Nat)) (cs : List CrashObs) : Except String Unit
   else if cs.any (fun c => match c.restored with | some v => v != full | none => false) then
     .error "interrupted_partial_state"
   else if cs.any (fun c => c.restored.isNone && !c.unchanged) then .error "failed_restore_changed_store"
-  else if !(cs.any (fun c => c.restored == some full)) then .error "completed_checkpoint_not_restorable"
+  -- (a snapshot holding a value that does not read back is an error at every point: "its complete state or an error")
+  else if snapOk full && !(cs.any (fun c => c.restored == some full)) then .error "completed_checkpoint_not_restorable"
   else .ok ()
 
 /-- one API call: `o` is observed after it, `r.prev` before it -/
@@ -125,7 +134,9 @@ def stepOk (file : Bool) (maxCk : Nat) (r : Ref) (op : OOp) (o : Obs) : Except S
         | some v => if o.view == v then .ok { r with prev := o } else .error "restore_reproduces"
       | .err _ =>
         if o.view != r.prev.view then .error "failed_restore_changed_store"
-        else if file && r.prev.metas.any (·.1 == i) then .error "listed_checkpoint_not_restorable"
+        -- a listed checkpoint must restore, unless it captured a value whose JSON text does not read back
+        else if file && r.prev.metas.any (·.1 == i) && ((lookupS r.taken i).map snapOk).getD true then
+          .error "listed_checkpoint_not_restorable"
         else .ok { r with prev := o }
       | .ckpt _ => .error "bad_result"
 
@@ -183,10 +194,17 @@ def killOk (maxCk : Nat) (r : Ref) (ck : Bool) (k : KillObs) : Except String Old
     | some p =>
       if listed then
         !((p.restored == some v && lookupS k.files i == some (.content v))
+          || (!snapOk v && p.restored == none && lookupS k.files i == some .bad)
           || (victim == some i && p.restored == none
               && (lookupS k.files i == none || lookupS k.files i == some .noFile)))
       else !(p.restored == none && lookupS k.files i == none)
-  if earlierBad then .error "crash_damaged_earlier"
+  -- an earlier checkpoint that restores Ok must restore its own snapshot (not another state, not part of it)
+  let earlierWrong := r.taken.any fun (i, v) =>
+    match findProbe k.probes i with
+    | some p => (match p.restored with | some w => w != v | none => false)
+    | none => false
+  if earlierWrong then .error "restore_reproduces"
+  else if earlierBad then .error "crash_damaged_earlier"
   else if k.probes.any (fun p => p.restored.isNone && !p.unchanged) then .error "failed_restore_changed_store"
   else
     let extra := k.probes.filter fun p => !(r.taken.any (·.1 == p.id))
@@ -195,7 +213,7 @@ def killOk (maxCk : Nat) (r : Ref) (ck : Bool) (k : KillObs) : Except String Old
     else if !ck && extra.length != 0 then .error "unknown_id_probed"
     else if extra.any (fun p => match p.restored with | some v => v != full | none => false) then
       .error "interrupted_partial_state"
-    else if ck && !k.dead && maxCk ≥ 1 && extra.any (fun p => p.restored.isNone) then
+    else if ck && !k.dead && maxCk ≥ 1 && snapOk full && extra.any (fun p => p.restored.isNone) then
       .error "completed_checkpoint_not_restorable"
     else .ok { files := k.files,
                survivors := k.probes.filterMap (fun p => p.restored.map fun v => (p.id, v)),
